@@ -74,6 +74,12 @@ func genC01(seed uint64, tier string) *plan.Plan {
 		pl.Cfg["refresh"] = 2
 		pl.Cfg["ttl"] = 5
 	}
+	if (tr == 0 || tr == 2) && r.IntN(4) == 0 {
+		// a stream collector that is configured with a template lifetime (which has no meaning on a
+		// stream: templates live as long as the session) and a session that goes on for much longer
+		pl.Cfg["ttl"] = []int64{1, 2, 5}[r.IntN(3)]
+		longUDP = true // same pacing: several seconds between sends
+	}
 	// a consumer behind the collector that stops taking messages for a while: the collector stops
 	// reading, the (bounded) receive window fills and the exporter's sends block until it resumes
 	slowConsumer := (tr == 0 || tr == 2) && r.IntN(3) == 0
